@@ -1114,6 +1114,12 @@ def explore(fn, max_paths=200000, timeout=3600, path_timeout=30, on_path=None, m
                             stats["timeouts"] += 1
                         except Unsupported:
                             stats["unsupported"] += 1
+                        except (KeyError, AttributeError, IndexError, TypeError):
+                            # a path that ran out of budget (or hit an unsupported operation) before the harness recorded its
+                            # inputs cannot be described by the judge: count it as an undecided path, not a crash
+                            if pr.kind not in ("timeout", "unsupported"):
+                                raise
+                            stats["judge_skipped"] = stats.get("judge_skipped", 0) + 1
                         finally:
                             signal.setitimer(signal.ITIMER_REAL, 0)
                     else:
